@@ -93,16 +93,21 @@ class SymKeyDict(SymContainer):
     a finite list of entries with pairwise distinct keys; a lookup forks over which entry matches.
     Abstraction of 'a table with arbitrarily many arrays' by the entries an operation can distinguish."""
 
-    def __init__(self, name, entries=None):
+    def __init__(self, name, entries=None, default_factory=None):
         self.name = name
-        self.entries = list(entries or [])      # [(key (int|SInt), value)]
+        self.entries = list(entries or [])      # [(key (int|SInt|tuple of those), value)]
+        self.default_factory = default_factory  # collections.defaultdict semantics when not None
 
     def copy_shallow(self):
-        return SymKeyDict(self.name + "'", list(self.entries))
+        return SymKeyDict(self.name + "'", list(self.entries), self.default_factory)
 
     def find(self, it, k):
         k = _fold_opt(it, k)
-        if k is None or not isinstance(k, (int, SInt)) or isinstance(k, bool):
+        if isinstance(k, tuple):
+            k = tuple(_fold_opt(it, x) for x in k)
+            if not all(isinstance(x, (int, SInt)) and not isinstance(x, bool) for x in k):
+                raise Unsupported(f"SymKeyDict key {k!r}")
+        elif k is None or not isinstance(k, (int, SInt)) or isinstance(k, bool):
             raise Unsupported(f"SymKeyDict key {k!r}")
         for j, (kk, v) in enumerate(self.entries):
             if it.truth(equal(it, k, kk)):
@@ -690,6 +695,10 @@ def getitem(it, o, k):
     if isinstance(o, SymKeyDict):
         j = o.find(it, k)
         if j is None:
+            if o.default_factory is not None:
+                v = it.call(o.default_factory, [], {})
+                o.entries.append((k if not isinstance(k, OptInt) else _fold_opt(it, k), v))
+                return v
             raise _PyExc(KeyError(_conc_or_str(k)))
         return o.entries[j][1]
     if isinstance(o, SymFamily) and callable(o.elem):
@@ -784,7 +793,15 @@ def setitem(it, o, k, v):
     if isinstance(o, SymList):
         k = _fold_opt(it, k)
         if isinstance(k, slice):
-            raise Unsupported("slice store into SymList")
+            lo, w = _slice_bounds(it, o, k)
+            vals = list(it.iterate(v))
+            if isinstance(w, SInt) or w != len(vals):
+                raise Unsupported("slice store into SymList that changes its length")
+            for j, x in enumerate(vals):
+                isn, val = _optparts(it, x)
+                o.isnone = z3.Store(o.isnone, z3.simplify(lo + j), isn)
+                o.val = z3.Store(o.val, z3.simplify(lo + j), val)
+            return True
         if k is None:
             raise _PyExc(TypeError("list indices must be integers or slices, not NoneType"))
         kt = lift_int(k)
@@ -858,8 +875,45 @@ def delitem(it, o, k):
     return NotImplemented
 
 
+def _slice_bounds(it, o, k):
+    """(lo term, width int) of a slice of a SymList whose bounds lie inside the list and whose width is concrete"""
+    if k.step is not None:
+        raise Unsupported("stepped slice of SymList")
+    lo = lift_int(_fold_opt(it, k.start)) if k.start is not None else z3.IntVal(0)
+    hi = lift_int(_fold_opt(it, k.stop)) if k.stop is not None else o.length
+    if not it.decide(z3.And(lo >= 0, hi <= o.length, lo <= hi)):
+        # python clamps out-of-range bounds; handled only when the result is then empty or a prefix
+        if it.decide(lo >= o.length) or it.decide(hi <= lo):
+            return lo, 0
+        if it.decide(z3.And(lo >= 0, lo <= o.length, hi > o.length)):
+            hi = o.length
+        else:
+            raise Unsupported("slice bounds of SymList outside the list (negative / clamped)")
+    w = z3.simplify(hi - lo)
+    if not z3.is_int_value(w):
+        s = it.solver()
+        if s.check() == z3.sat:
+            m = s.model().eval(w, model_completion=True)
+            if s.check(w != m) == z3.unsat:
+                return lo, m.as_long()
+        return lo, SInt(w)
+    return lo, w.as_long()
+
+
+class SymListView(SymContainer):
+    """slice [lo, lo+width) of a SymList with symbolic width (read-only window, used by the wait instructions)"""
+
+    def __init__(self, base, lo, width):
+        self.base = base
+        self.lo = lo
+        self.width = width
+
+
 def symlist_slice(it, o, k):
-    raise Unsupported("slice of SymList")
+    lo, w = _slice_bounds(it, o, k)
+    if isinstance(w, SInt):
+        return SymListView(o, lo, w.t)
+    return [OptInt(z3.Select(o.isnone, z3.simplify(lo + j)), z3.Select(o.val, z3.simplify(lo + j))) for j in range(w)]
 
 
 def bytesfn_getitem(it, o, k):
@@ -1452,7 +1506,7 @@ def _isinstance(it, o, c):
         return c in (dict, object)
     if isinstance(o, SymIntSet):
         return c in (set, object)
-    if isinstance(o, (SymList, SymFamily)):
+    if isinstance(o, (SymList, SymFamily, SymListView)):
         return c in (list, object)
     if isinstance(o, SymSet):
         return c in (set, object)
@@ -1475,6 +1529,8 @@ def _len(it, o):
         return mk_int(o.n)
     if isinstance(o, SymKeyDict):
         return len(o.entries)
+    if isinstance(o, SymListView):
+        return mk_int(o.width)
     if isinstance(o, SymCArray):
         return len(o.vals)
     if isinstance(o, SymStructArray):
@@ -1655,6 +1711,10 @@ def _abs(it, v):
     if isinstance(v, SReal):
         return SReal(z3.If(v.t >= 0, v.t, -v.t))
     return it.native(abs, [v], {})
+
+
+def _slice(it, *a):
+    return slice(*[_fold_opt(it, x) for x in a])
 
 
 def _filter(it, f, xs):
@@ -1848,7 +1908,7 @@ _BUILTINS = {
     tuple: _tuple, list: _list, set: _set, dict: _dict, all: _all, any: _any, sum: _sum, min: _minmax("min"),
     max: _minmax("max"), abs: _abs, enumerate: _enumerate, zip: _zip, range: _range, type: _type,
     getattr: _getattr, hasattr: _hasattr, setattr: _setattr, next: _next, iter: _iter, sorted: _sorted,
-    repr: _repr, callable: _callable, id: _id, filter: _filter, map: _map,
+    repr: _repr, callable: _callable, id: _id, filter: _filter, map: _map, slice: _slice,
 }
 
 
@@ -1901,7 +1961,7 @@ def iterate(it, v):
         return iter(v.vals)
     if isinstance(v, SymStructArray):
         return iter(v.elems)
-    if isinstance(v, (SymMap, SymList, SymFamily, SymRange, SymBytesFn, SymSet, SymKeyDict, SymIntSet)):
+    if isinstance(v, (SymMap, SymList, SymFamily, SymRange, SymBytesFn, SymSet, SymKeyDict, SymIntSet, SymListView)):
         raise Unsupported(f"iteration over {type(v).__name__} (needs a loop contract)")
     if isinstance(v, SegStr):
         from . import segstr
@@ -1961,7 +2021,7 @@ def foreach_generic_element(it, st, sc):
     return True
 
 
-def comp_hook(it, e, sc):
+def comp_hook(it, e, sc, contracts_only=False):
     """list comprehension over a symbolic range:  [f(i) for i in range(n)]  ->  SymFamily"""
     h = getattr(it, "comp_contracts", None)
     if h and sc.fn_node is not None:
@@ -1970,6 +2030,8 @@ def comp_hook(it, e, sc):
         f = h.get((sc.fn_qual, k))
         if f is not None:
             return f(it, e, sc)
+    if contracts_only:
+        return NotImplemented
     if len(e.generators) == 1 and not e.generators[0].ifs:
         g = e.generators[0]
         src = it.ev(g.iter, sc)
